@@ -210,6 +210,9 @@ def resolve(root: Any, op: dict, idx: Optional[dict] = None) -> Action:
     except (KeyError, AttributeError, TypeError, IndexError) as e:
         # malformed descriptor (e.g. after minimisation) or a donor that no longer parses
         raise NotApplicable(f'{type(e).__name__}: {e}')
+    except ArithmeticError as e:
+        # the reference semantics read the view's current values, and one of them does not evaluate (x / (0)): no reference, no verdict
+        raise NotApplicable(f'unevaluable value in the target view: {type(e).__name__}')
 
 
 def _donor(desc: Optional[dict]) -> Any:
